@@ -10,13 +10,16 @@ cd $WT
 for id in "$@"; do
   D=/verif/seeded/$id
   demo=$(ls $D/*.rs | head -1); name=$(basename $demo .rs)
-  mkdir -p savefile-test/tests; cp $demo savefile-test/tests/
-  timeout 1800 cargo test --offline -p savefile-test --test $name > /tmp/wt/v_$id.without.log 2>&1; a=$?
-  if ! git apply $D/patch.diff; then echo "$id: PATCH DOES NOT APPLY to $(git -C /repo rev-parse --short HEAD)" | tee $D/confirmed.txt; rm -f savefile-test/tests/$name.rs; continue; fi
-  timeout 1800 cargo test --offline -p savefile-test --test $name > /tmp/wt/v_$id.with.log 2>&1; b=$?
-  rm -f savefile-test/tests/$name.rs
+  # meta.json may name the package whose tests/ directory the demonstration belongs to (default savefile-test)
+  pkg=$(python3 -c "import json,sys;print(json.load(open('$D/meta.json')).get('demo_pkg','savefile-test'))")
+  mkdir -p $pkg/tests; cp $demo $pkg/tests/
+  pre() { if [ "$pkg" = savefile-abi-min ]; then cargo build --offline -p savefile-abi-min-lib-impl >/dev/null 2>&1; fi; }
+  pre; timeout 1800 cargo test --offline -p $pkg --test $name > /tmp/wt/v_$id.without.log 2>&1; a=$?
+  if ! git apply $D/patch.diff; then echo "$id: PATCH DOES NOT APPLY to $(git -C /repo rev-parse --short HEAD)" | tee $D/confirmed.txt; rm -f $pkg/tests/$name.rs; continue; fi
+  pre; timeout 1800 cargo test --offline -p $pkg --test $name > /tmp/wt/v_$id.with.log 2>&1; b=$?
+  rm -f $pkg/tests/$name.rs
   timeout 2400 cargo nextest run --workspace --no-fail-fast --tool-config-file pb:/w/lib/nextest.toml --profile pb --test-threads 8 --offline > /tmp/wt/v_$id.suite.log 2>&1; c=$?
   echo "$id @ repo $(git -C /repo rev-parse --short HEAD): demo without patch exit=$a (0 expected); demo with patch exit=$b (non-zero expected); pinned suite with patch exit=$c $(grep -E 'Summary' /tmp/wt/v_$id.suite.log | tail -1)" | tee $D/confirmed.txt
-  git checkout -q -- . ; git clean -fdq savefile-test/tests 2>/dev/null
+  git checkout -q -- . ; git clean -fdq savefile-test/tests savefile-abi-min/tests 2>/dev/null
 done
 cd /; git -C /repo worktree remove --force $WT
